@@ -37,17 +37,22 @@ def firstDifference (a b : Dump) : Option String :=
   else if a.cm != b.cm then some "chunk-manifest-flag"
   else none
 
+/-- the stale-record signature: the two replicas hold records of different uploads (their last-modified stamps differ) -/
+def differentUploads (a b : Dump) : Bool := a.present && b.present && (a.lm != b.lm || a.lm == "o")
+
 def agreeJudge (op : String) (ok : Bool) (_unchanged : Bool := false) (ds : List Dump) : Option String :=
   if !ok then none else
   match ds with
   | [] => none
   | p :: rest =>
-    match rest.findSome? (firstDifference p) with
+    match rest.findSome? (fun d => (firstDifference p d).map fun w => (w, differentUploads p d)) with
     | none => none
-    | some what =>
-      -- name / pairs / last-modified / ttl / flag differences all come from one defect: isFileUnchanged keeps the old needle
-      -- (with its old metadata) on the replicas whose stored bytes equal the new ones, the others rewrite it
+    | some (what, stale) =>
+      -- isFileUnchanged keeps the OLD needle (old name, pairs, stamp, ttl, flag) on the replicas whose stored bytes equal the
+      -- new ones while the others rewrite it: one defect, recognisable by the differing stamps. A field that differs between
+      -- records of the SAME upload is something else and gets its own class.
       if what == "presence" || what == "content" || what == "mime" then some s!"{op}/replicas-differ-in-{what}"
-      else some s!"{op}/replicas-differ-in-metadata-of-unchanged-bytes"
+      else if stale then some s!"{op}/replicas-differ-in-metadata-of-unchanged-bytes"
+      else some s!"{op}/replicas-differ-in-{what}"
 
 end SwV.Spec.C40
